@@ -32,7 +32,7 @@ CHECKS = {
    "A grammar neighbourhood, not all byte strings; optimised build with integer overflow checks on.", "DESIGN.md section 6, C05"),
   "C17": ("E1-simnet-explorer", "model_checking",
    "exhaustive enumeration of second-call relations x placements and of storer reply splits x arrival orders against a real node over a simulated network",
-   "A real node with scripted storers: the second put_mutable in every relation (identical / lower / equal-other / higher seq x cas none / matching / other x salted or not) is placed before every event of the first put's lifetime and after it, with the expected local verdict derived from whether the node's snapshot shows the first put in flight; every split of ack/301/302 among 3 (quick) / 3-4 (thorough) storers in every arrival order for mutable puts, and for the other put kinds through the typed sync-equivalent async APIs. Both parts are also run through the blocking Dht API; an accepted second put must reach a storer; every storer reply is also delivered two and three times (one vote all the same).",
+   "A real node with scripted storers: the second put_mutable in every relation (identical / lower / equal-other / higher seq x cas none / matching / other x salted or not) is placed before every event of the first put's lifetime and after it, with the expected local verdict derived from whether the node's snapshot shows the first put in flight; every split of ack/301/302 among 3 (quick) / 3-4 (thorough) storers in every arrival order for mutable puts, and for the other put kinds through the typed sync-equivalent async APIs. Both parts are also run through the blocking Dht API; an accepted second put must reach a storer; every storer reply is also delivered two and three times (one vote all the same). Part 3 puts real storage nodes (they honour cas) in place of the scripted ones: an identical second call before every event of a put(seq 5, cas none / 4) after a stored seq 4 - both Ok, seq 5 held.",
    "Scripted storers ack everything in part 1.", "DESIGN.md section 6, C17"),
   "C06": ("E1-simnet-explorer", "model_checking",
    "exhaustive enumeration of call overlaps and deviation-bounded exploration of fault schedules on a real node over a simulated network; completion oracle at a virtual-time horizon",
@@ -40,7 +40,7 @@ CHECKS = {
    "Latency 10 ms, late = 900 ms; three peers.", "DESIGN.md section 6, C06"),
   "C02": ("E1-simnet-explorer", "model_checking",
    "exhaustive enumeration of Byzantine answer assignments and arrival orders against a real reader node over a simulated network, independent re-verification of everything the API surfaces",
-   "A real node runs every lookup API over 3 scripted endpoints; every assignment of a forgery-menu answer (8-10 classes incl. type confusion, other key, other salt, replay from the other slot, bit flips) to every endpoint in every arrival order is executed, alone and with a second caller (or the node's own put) sharing the still-active lookup; each surfaced element is re-verified with sha1/ed25519 by the harness. Signed-peer lists of 16 records (forged last) are on the menu, the node's own put of every kind may be in flight, and the lookups are also made through the blocking Dht API. Beyond the cube menu: a non-UTF-8 value with a byte-swapped replay under the same signature, two genuine records of one key in one signed-peers answer.",
+   "A real node runs every lookup API over 3 scripted endpoints; every assignment of a forgery-menu answer (8-10 classes incl. type confusion, other key, other salt, replay from the other slot, bit flips) to every endpoint in every arrival order is executed, alone and with a second caller (or the node's own put) sharing the still-active lookup; each surfaced element is re-verified with sha1/ed25519 by the harness. Signed-peer lists of 16 records (forged last) are on the menu, the node's own put of every kind may be in flight, and the lookups are also made through the blocking Dht API. Beyond the cube menu: a non-UTF-8 value with a byte-swapped replay under the same signature, two genuine records of one key in one signed-peers answer. A server-mode reader whose address vote was won by a responder's own address and confirmed by that responder's ping gives that responder no trust.",
    "Forgery classes rather than all byte strings; oracle trusts sha1_smol and ed25519-dalek verification.", "DESIGN.md section 6, C02"),
   "C07": ("E1-simnet-explorer", "model_checking",
    "exhaustive enumeration of endpoint behaviours around the K=20 boundary against a real initiator over a simulated network; verdict computed from the lookup's own datagram trace",
